@@ -8,10 +8,10 @@ import (
 	"flag"
 	"fmt"
 	"net/http"
-	"net/http/httptest"
 	"runtime"
 	"strings"
 	"sync"
+	"verifharness/internal/netx"
 
 	"github.com/ipni/go-libipni/apierror"
 	"github.com/ipni/go-libipni/dhash"
@@ -407,7 +407,7 @@ func httpSourceURLFor(pi *model.ProviderInfo) (pcache.ProviderSource, func(), st
 	if err != nil {
 		return nil, nil, "", err
 	}
-	srv := httptest.NewServer(http.HandlerFunc(func(w http.ResponseWriter, r *http.Request) {
+	srv := netx.NewServer(http.HandlerFunc(func(w http.ResponseWriter, r *http.Request) {
 		w.Header().Set("Content-Type", "application/json")
 		if strings.HasSuffix(r.URL.Path, "/providers") {
 			w.Write(all)
